@@ -211,6 +211,11 @@ fn generate_c(seed: u64, quick: bool) -> Value {
         // a library with many exports
         libs.insert("(lt big)".into(), (0..20).map(|i| format!("n{}", i)).collect());
     }
+    if rng.chance(1, 4) {
+        // a library whose exports are native procedures (re-exported from the bundled base
+        // library, or handed over natively): values with an identity of their own
+        libs.insert("(lt procs)".into(), PROC_EXPORTS.iter().map(|(e, _)| e.to_string()).collect());
+    }
     let max_depth = if quick { 2 } else { 3 };
     let mut decl;
     let mut tries = 0;
@@ -256,6 +261,9 @@ fn generate_c(seed: u64, quick: bool) -> Value {
     })
 }
 
+/// exports of (lt procs) and the bundled procedure each of them is
+const PROC_EXPORTS: &[(&str, &str)] = &[("pcar", "car"), ("pcdr", "cdr"), ("pnull", "null?")];
+
 fn export_value(lib: &str, export: &str) -> i64 {
     // (lt one): a distinct value per export; (lt two): both exports hold the SAME value,
     // so that anything keyed by value instead of by name shows
@@ -269,6 +277,12 @@ fn export_value(lib: &str, export: &str) -> i64 {
 }
 
 fn lib_text(key: &str, exports: &[String]) -> String {
+    if key == "(lt procs)" {
+        return format!(
+            "(define-library (lt procs) (import (scheme base)) (export {}))",
+            PROC_EXPORTS.iter().map(|(e, b)| format!("(rename {} {})", b, e)).collect::<Vec<_>>().join(" ")
+        );
+    }
     // internal names differ from external ones for half of the exports
     let mut specs = vec![];
     let mut defs = vec![];
@@ -321,6 +335,18 @@ fn observe_once(case: &Value, dir: Option<std::path::PathBuf>) -> Observation {
     let (decl, wrapper) = program_and_wrapper(case, &libs);
     let r = guarded(|| {
         let mut it = Interpreter::<f32>::default();
+        // procedure values are told apart by the interpreter's own equality (what eq? uses),
+        // against reference values that come from the same place as the exported ones
+        let mut refs: Vec<(String, RValue<f32>)> = vec![];
+        if delivery == "native" && libs.contains_key("(lt procs)") {
+            let std = Interpreter::<f32>::new_with_stdlib();
+            for (_, b) in PROC_EXPORTS {
+                match std.env.get(b) {
+                    Some(v) => refs.push((b.to_string(), (*v).clone())),
+                    None => return Err(format!("the bundled library has no {}", b)),
+                }
+            }
+        }
         if let (Some(w), true) = (&wrapper, delivery != "file") {
             match LibraryFactory::from_char_stream(&library_name_of(&["lt", "wrap"]), w.chars()) {
                 Ok(f) => it.register_library_factory(f),
@@ -333,10 +359,17 @@ fn observe_once(case: &Value, dir: Option<std::path::PathBuf>) -> Observation {
             let name = library_name_of(&parts_ref);
             match delivery.as_str() {
                 "native" => {
-                    let items: Vec<(String, RValue<f32>)> = exports
-                        .iter()
-                        .map(|e| (e.clone(), RValue::Number(Number::Integer(export_value(key, e) as i32))))
-                        .collect();
+                    let items: Vec<(String, RValue<f32>)> = if key == "(lt procs)" {
+                        PROC_EXPORTS
+                            .iter()
+                            .map(|(e, b)| (e.to_string(), refs.iter().find(|r| r.0 == *b).unwrap().1.clone()))
+                            .collect()
+                    } else {
+                        exports
+                            .iter()
+                            .map(|e| (e.clone(), RValue::Number(Number::Integer(export_value(key, e) as i32))))
+                            .collect()
+                    };
                     it.register_library_factory(LibraryFactory::Native(
                         name,
                         Box::new(move || items.clone()),
@@ -356,11 +389,11 @@ fn observe_once(case: &Value, dir: Option<std::path::PathBuf>) -> Observation {
             it.program_directory = dir.clone();
         }
         // what the declaration adds: compared with the environment as it was before
-        let mut before: BTreeMap<String, String> = BTreeMap::new();
+        let mut before: BTreeMap<String, RValue<f32>> = BTreeMap::new();
         {
             let mut defs = it.env.iter_local_definitions();
             for (k, v) in &mut *defs {
-                before.insert(k.clone(), obs_of_value(v).short());
+                before.insert(k.clone(), v.clone());
             }
         }
         match it.eval(decl.chars()) {
@@ -373,16 +406,42 @@ fn observe_once(case: &Value, dir: Option<std::path::PathBuf>) -> Observation {
                 Err(e) => return Err(format!("second import failed: {:?}", kind_of_error(&e))),
             }
         }
-        let mut out: Vec<(String, String)> = vec![];
+        let mut added: Vec<(String, RValue<f32>)> = vec![];
         {
             let mut defs = it.env.iter_local_definitions();
             for (k, v) in &mut *defs {
-                let o = obs_of_value(v).short();
-                if before.get(k) != Some(&o) {
-                    out.push((k.clone(), o));
+                if before.get(k) != Some(v) {
+                    added.push((k.clone(), v.clone()));
                 }
             }
         }
+        if delivery != "native" && libs.contains_key("(lt procs)") {
+            // the library re-exports this interpreter's bundled procedures: fetch those
+            let names: Vec<&str> = PROC_EXPORTS.iter().map(|(_, b)| *b).collect();
+            match it.eval(format!("(import (only (scheme base) {}))", names.join(" ")).chars()) {
+                Ok(_) => {}
+                Err(e) => return Err(format!("reference import failed: {:?}", kind_of_error(&e))),
+            }
+            for b in names {
+                match it.env.get(b) {
+                    Some(v) => refs.push((b.to_string(), (*v).clone())),
+                    None => return Err(format!("the bundled library has no {}", b)),
+                }
+            }
+        }
+        let mut out: Vec<(String, String)> = added
+            .into_iter()
+            .map(|(k, v)| {
+                let o = match &v {
+                    RValue::Procedure(_) => match refs.iter().find(|r| r.1 == v) {
+                        Some(r) => format!("proc:{}", r.0),
+                        None => "proc:not-one-of-the-exported-procedures".to_string(),
+                    },
+                    _ => obs_of_value(&v).short(),
+                };
+                (k, o)
+            })
+            .collect();
         out.sort();
         Ok(out)
     });
@@ -413,6 +472,14 @@ fn execute_c(case: &Value) -> RunResult {
     // model: the reference module system
     let mut m = Machine::new_empty();
     for (key, exports) in &libs {
+        if key == "(lt procs)" {
+            m.world.insert(
+                key.clone(),
+                LibEntry::Native(PROC_EXPORTS.iter().map(|(e, b)| (e.to_string(), NativeVal::Builtin(b.to_string()))).collect()),
+            );
+            res.count("probe.procedure_valued_exports");
+            continue;
+        }
         if delivery == "native" {
             m.world.insert(
                 key.clone(),
@@ -454,7 +521,15 @@ fn execute_c(case: &Value) -> RunResult {
                 .vars
                 .borrow()
                 .iter()
-                .map(|(k, v)| (k.clone(), obs_of_rv(&m, v).short()))
+                .map(|(k, v)| {
+                    (
+                        k.clone(),
+                        match v {
+                            RV::Builtin(b) => format!("proc:{}", b),
+                            _ => obs_of_rv(&m, v).short(),
+                        },
+                    )
+                })
                 .collect();
             v.sort();
             v
